@@ -333,6 +333,10 @@ func runC08(c *Ctx) {
 	}
 	for _, n := range names {
 		fn := all[n]
+		if fn == nil && !strings.HasSuffix(n, ").parse") {
+			// a helper that does not use its receiver may have become a plain function: found by its (unique) name
+			fn = c.NamedFunc("protocol/model", n[strings.LastIndex(n, ".")+1:])
+		}
 		if fn == nil {
 			R.Fatal("flag decoder %s not found", n)
 			continue
